@@ -24,6 +24,7 @@ import (
 	"regexp"
 	"strconv"
 	"strings"
+	"sync"
 	"unsafe"
 
 	"gitee.com/xuesongtao/protoc-go-valid/valid"
@@ -157,6 +158,7 @@ type dumpOut struct {
 	DocEq   bool      `json:"docEq"`
 	LooseEq bool      `json:"looseEq"`
 	FJDiff  bool      `json:"fjdiff,omitempty"`
+	Conc    bool      `json:"conc,omitempty"` // the library call ran concurrently with the other calls of its batch
 	Panic   string    `json:"panic,omitempty"`
 }
 
@@ -696,48 +698,89 @@ func dumpRun(args []string) error {
 	in := newLineReader(os.Stdin)
 	out := newLineWriter(os.Stdout)
 	defer out.flush()
+	// Records are handled in batches of dumpBatch; in every other batch the library calls of the batch run
+	// concurrently (one goroutine per record, released together), so that half of the outputs judged by TLC were
+	// produced while other dumps were in flight: the dumper's result must be a function of its argument alone.
+	type item struct {
+		r   dumpRec
+		val interface{}
+		o   dumpOut
+	}
+	batchNo := 0
 	for {
-		var r dumpRec
-		if !in.next(&r) {
+		var batch []*item
+		for len(batch) < dumpBatch {
+			it := &item{}
+			if !in.next(&it.r) {
+				break
+			}
+			if it.r.Ty == nil || it.r.V == nil {
+				return fmt.Errorf("record %d: no tree", it.r.ID)
+			}
+			val, err := dumpConcretise(&it.r)
+			if err != nil {
+				return fmt.Errorf("record %d: %v", it.r.ID, err)
+			}
+			it.val = val
+			it.o = dumpOut{ID: it.r.ID, TN: it.r.TN, Ty: it.r.Ty, V: it.r.V}
+			batch = append(batch, it)
+		}
+		if len(batch) == 0 {
 			break
 		}
-		if r.Ty == nil || r.V == nil {
-			return fmt.Errorf("record %d: no tree", r.ID)
+		batchNo++
+		if batchNo%2 == 0 && len(batch) > 1 {
+			var wg sync.WaitGroup
+			start := make(chan struct{})
+			for _, it := range batch {
+				wg.Add(1)
+				go func(it *item) {
+					defer wg.Done()
+					<-start
+					it.o.Out, it.o.Panic = dumpCall(valid.GetDumpStructStr, it.val)
+					it.o.Conc = true
+				}(it)
+			}
+			close(start)
+			wg.Wait()
+		} else {
+			for _, it := range batch {
+				it.o.Out, it.o.Panic = dumpCall(valid.GetDumpStructStr, it.val)
+			}
 		}
-		val, err := dumpConcretise(&r)
-		if err != nil {
-			return fmt.Errorf("record %d: %v", r.ID, err)
+		for _, it := range batch {
+			r, o, val := &it.r, &it.o, it.val
+			var jerr error
+			if o.JOut, jerr = dumpStdEncode(val); jerr != nil {
+				return fmt.Errorf("record %d: the standard encoder failed: %v", r.ID, jerr)
+			}
+			// the library's own wrapper of the standard encoder is only compared (a difference is a note, not a verdict)
+			if fj, fp := dumpCall(valid.GetDumpStructStrForJson, val); fp != "" || fj != o.JOut {
+				o.FJDiff = true
+			}
+			o.Tokens = dumpLex(o.Out)
+			o.JTokens = dumpLex(o.JOut)
+			o.Valid = json.Valid([]byte(o.Out))
+			got := dumpDecode(o.Out)
+			if (got != nil) != o.Valid {
+				return fmt.Errorf("record %d: json.Valid and the decoder disagree on %q", r.ID, o.Out)
+			}
+			std := dumpDecode(o.JOut)
+			if std == nil {
+				return fmt.Errorf("record %d: the standard encoder's output does not decode: %q", r.ID, o.JOut)
+			}
+			o.LooseEq = got != nil && dumpDocEqual(std, got, true)
+			if r.Doc != nil {
+				o.HasDoc = true
+				o.DocEq = got != nil && dumpDocEqual(r.Doc, got, false)
+			}
+			out.put(o)
 		}
-		o := dumpOut{ID: r.ID, TN: r.TN, Ty: r.Ty, V: r.V}
-		o.Out, o.Panic = dumpCall(valid.GetDumpStructStr, val)
-		var jerr error
-		if o.JOut, jerr = dumpStdEncode(val); jerr != nil {
-			return fmt.Errorf("record %d: the standard encoder failed: %v", r.ID, jerr)
-		}
-		// the library's own wrapper of the standard encoder is only compared (a difference is a note, not a verdict)
-		if fj, fp := dumpCall(valid.GetDumpStructStrForJson, val); fp != "" || fj != o.JOut {
-			o.FJDiff = true
-		}
-		o.Tokens = dumpLex(o.Out)
-		o.JTokens = dumpLex(o.JOut)
-		o.Valid = json.Valid([]byte(o.Out))
-		got := dumpDecode(o.Out)
-		if (got != nil) != o.Valid {
-			return fmt.Errorf("record %d: json.Valid and the decoder disagree on %q", r.ID, o.Out)
-		}
-		std := dumpDecode(o.JOut)
-		if std == nil {
-			return fmt.Errorf("record %d: the standard encoder's output does not decode: %q", r.ID, o.JOut)
-		}
-		o.LooseEq = got != nil && dumpDocEqual(std, got, true)
-		if r.Doc != nil {
-			o.HasDoc = true
-			o.DocEq = got != nil && dumpDocEqual(r.Doc, got, false)
-		}
-		out.put(&o)
 	}
 	return nil
 }
+
+const dumpBatch = 8
 
 // ---------------------------------------------------------------- dump-rand
 
